@@ -15,7 +15,7 @@ theorem parseField_varint (num x : Nat) (rest : Bytes) (h1 : 1 ≤ num) (h2 : nu
   rw [decodeVarint_encodeVarint _ _ (by omega)]
   have e1 : (num * 8 + 0) / 8 = num := by omega
   have e2 : (num * 8 + 0) % 8 = 0 := by omega
-  have e3 : ¬ num = 0 := by omega
+  have e3 : ¬ (num = 0 ∨ 536870912 ≤ num) := by omega
   simp only [e1, e2, e3, if_false, if_true]
   rw [decodeVarint_encodeVarint _ _ hx]
 
@@ -27,10 +27,25 @@ theorem parseField_lenDelim (num : Nat) (p rest : Bytes) (h1 : 1 ≤ num) (h2 : 
   rw [decodeVarint_encodeVarint _ _ (by omega)]
   have e1 : (num * 8 + 2) / 8 = num := by omega
   have e2 : (num * 8 + 2) % 8 = 2 := by omega
-  have e3 : ¬ num = 0 := by omega
+  have e3 : ¬ (num = 0 ∨ 536870912 ≤ num) := by omega
   simp only [e1, e2, e3, if_false]
   rw [decodeVarint_encodeVarint _ _ hp]
   simp
+
+/-- the record parser only ever hands out legal field numbers (1 … 2^29-1) -/
+theorem parseField_num (bs : Bytes) (num : Nat) (it : Item) (rest : Bytes)
+    (h : parseField bs = some (num, it, rest)) : 1 ≤ num ∧ num < 536870912 := by
+  unfold parseField at h
+  split at h
+  · simp at h
+  · rename_i t r _
+    by_cases hc : t / 8 = 0 ∨ 536870912 ≤ t / 8
+    · rw [if_pos hc] at h; simp at h
+    · have hnum : num = t / 8 := by
+        rw [if_neg hc] at h
+        repeat' split at h
+        all_goals first | (simp at h; exact h.1.symm) | (simp at h)
+      omega
 
 theorem parseField_nil : parseField [] = none := by
   simp [parseField, decodeVarint, decVarintAux]
